@@ -31,7 +31,7 @@ void comp_case(Ctx &c) {
 #define VF_COMP_ENUM(K, E, ER, F)                                                                                      \
     VF_REGISTER(std::string("comp/") + ::vf::KT<K>::name() + ",e" #E ",er" #ER "," #F "#enum", (&::vf::comp_case<K, E, ER, F, 2>), 8.6)
 #define VF_COMP_BIG(K, E, ER, F)                                                                                       \
-    VF_REGISTER(std::string("comp/") + ::vf::KT<K>::name() + ",e" #E ",er" #ER "," #F "#big", (&::vf::comp_case<K, E, ER, F, 3>), 0.0051)
+    VF_REGISTER(std::string("comp/") + ::vf::KT<K>::name() + ",e" #E ",er" #ER "," #F "#big", (&::vf::comp_case<K, E, ER, F, 3>), 0.011)
 #define VF_COMP_SWEEP(K, E, ER, F)                                                                                     \
     VF_REGISTER(std::string("comp/") + ::vf::KT<K>::name() + ",e" #E ",er" #ER "," #F "#sweep", (&::vf::comp_case<K, E, ER, F, 4>), 0.0003)
 #define VF_COMP_HUGE(K, E, ER, F)                                                                                      \
